@@ -1,7 +1,7 @@
 (* Pinned statements of the C05 theorems (generated once by bin/genpins, then committed):
    fails to compile if Props/C05.v is weakened, renamed or given other hypotheses. *)
 From Coq Require Import ZArith Reals SpecFloat.
-From Flocq Require Import Core BinarySingleNaN PrimFloat.
+From Flocq Require Import Core BinarySingleNaN.
 Require Import Base Value Float PrintOptions Printer ParseOptions Utf8 Reader Scan Num NumberOps Parser.
 Require Import ReaderProofs TokenProofs NumTokenProofs ClingerProofs.
 Require Import Lexpr.Props.C05.
@@ -47,10 +47,10 @@ Check (C05_printed_negint_reads_back :
 Check (C05_fast_path_correctly_rounded :
   forall std_parse pos sig e r,
   (Z.of_N sig < 2 ^ 53)%Z -> (Z.abs e <= 22)%Z ->
-  exists b : binary_float FloatOps.prec FloatOps.emax,
+  exists b : binary_float 53 1024,
     f64_from_parts true std_parse pos sig e r = (Ok (if pos then B2SF b else f64_neg (B2SF b)), r) /\
     is_finite b = true /\
-    B2R b = round radix2 (SpecFloat.fexp FloatOps.prec FloatOps.emax) ZnearestE (dec_value sig e)).
+    B2R b = round radix2 (SpecFloat.fexp 53 1024) ZnearestE (dec_value sig e)).
 
 Check (C05_nonvacuous :
   f64_from_parts true dec_to_f64 true 3 (-1) (mk_reader SrcStr []) =
